@@ -69,8 +69,13 @@ def rule_await_table(ctx):
         ok, some, status = _parse_facts(st)
         rs = shape(o.ret)
         ret = o.ret.get((("v", "Ok"), ("f", "0"))) if rs.startswith("Ok(") else None
+        # leaves of the flow object that differ from what the run started with (any field, not only the two flags)
+        init_leaves = getattr(o.state, "_unused", None)
+        changed = sorted(repr(k)[:80] for k, v in st.mem.get(FLOW, {}).items()
+                         if k not in ((), AWAIT, SSB) and not (k[:2] == INNER + (("f", "close_reason"),)[:1] and False)
+                         and "close_reason" not in repr(k) and k != INNER + (("f", "call"), ("$v",)))
         rows.append(dict(ok=ok, some=some, status=status, rs=rs, ret=ret, aw=st.read_leaf(FLOW, AWAIT), ssb=st.read_leaf(FLOW, SSB),
-                         pushed=[e[1] for e in st.events if e[0] == "push"]))
+                         pushed=[e[1] for e in st.events if e[0] == "push"], changed=changed))
     if not ctx.floor(R, "paths", len(rows), 4, "paths of the await-100 reader"):
         return
     bad = []
@@ -102,6 +107,8 @@ def rule_await_table(ctx):
             if not (r["ret"] == ("int", 0) and r["aw"] == ("int", 1) and r["ssb"] == ("int", 1) and not r["pushed"]):
                 bad.append("incomplete input: returns %s, awaiting=%s, body-due=%s, recorded %s (expected: nothing decided, nothing consumed)" % (
                     r["rs"][:24], r["aw"], r["ssb"], r["pushed"]))
+            if r["changed"]:
+                bad.append("incomplete input: the flow stores %s (a look at a prefix must leave no trace)" % r["changed"][:2])
         if r["ok"] == frozenset(["Err"]):
             if r["rs"].startswith("Ok("):
                 seen.add("fields")
